@@ -7,8 +7,9 @@
    value) is represented by an integer above every finite float32 on the grid, so that the comparisons it
    takes part in (always as the right-hand side) come out as with infinity.
 
-   [R] (repaired?) switches the two time-window comparisons of get_action_mask from the shipped strict [<]
-   (R = false, the code as it is) to [<=] (R = true, the smallest repair of the C05 defect). *)
+   [R] switches the two time-window comparisons of get_action_mask between [<=] (R = true: the code as it is since
+   /repo 9b8ead8) and the strict [<] it had before (R = false: kept for the recorded C05 finding, so that the old
+   behaviour is recognised if it returns). *)
 From Coq Require Import ZArith List Bool Lia ZifyBool Arith.
 From RL4CO Require Import Base.Num Base.EnvSig Base.SortNat.
 Import ListNotations.
@@ -122,16 +123,17 @@ Section Model.
     forallb (fun j => lo i j <? hi i j) (seq 0 (nn i)) &&
     forallb (fun j => rnd A (rnd A (lo i j + dfun i j 0) + sv i j) <=? hi i 0%nat) (seq 0 (nn i)).
 
-  (* the loop over the actions: running route length and clock; NOTE the clock advances by the distance,
-     not by distance / speed, and the return leg of an open route is not added to the length but is added to
-     the clock, whose value is then tested against the depot's window end *)
+  (* the loop over the actions: running route length (distance) and clock (distance / speed, as in the mask, since
+     /repo ea27328); NOTE the return leg of an open route is not added to the length but is added to the clock, whose
+     value is then tested against the depot's window end; the instance-level assert of [data_ok] still adds the
+     plain distance d(j,0) *)
   Fixpoint walk_ok (i : mtvrp_inst) (node : nat) (len t : Z) (acts : list nat) : bool :=
     match acts with
     | [] => true
     | a :: r =>
         let d := dfun i node a in
         let len1 := rnd A (len + (if opn i && Nat.eqb a 0 then 0 else d)) in
-        let t1 := Z.max (rnd A (t + d)) (lo i a) in
+        let t1 := Z.max (rnd A (t + tfun i node a)) (lo i a) in
         let t2 := rnd A (t1 + sv i a) in
         (len1 <=? lim i) && (t1 <=? hi i a) &&
         walk_ok i a (if Nat.eqb a 0 then 0 else len1) (if Nat.eqb a 0 then 0 else t2) r
